@@ -6,7 +6,7 @@ cd "$(dirname "$0")/.."
 if [ -n "${VP_RUN_REPO:-}" ]; then sed -i "s#path = \"/repo\"#path = \"$VP_RUN_REPO\"#" sim/Cargo.toml; fi
 first=${1:-1}; last=${2:-100}
 bad=0
-for id in C04 C05 C09 C11 C13 C15 C16; do
+for id in ${SWEEP_IDS:-C04 C05 C09 C11 C13 C15 C16}; do
   ok=0
   for seed in $(seq $first $last); do
     out=$(VERIF_SEED=$seed VERIF_NO_EVIDENCE=1 ./check $id quick 2>&1); rc=$?
